@@ -4,6 +4,7 @@
 (* summaries of up to three parts split at message boundaries, and the       *)
 (* result of merging the parts in every order and grouping.                  *)
 EXTENDS DltCodec, TLC, Json, IOUtils
+F == INSTANCE DltFilter
 S == INSTANCE Stats
 R == INSTANCE Reader
 Rec == ndJsonDeserialize(IOEnv.TRACE)
@@ -34,7 +35,20 @@ StatsOk(e) ==
          /\ S!Total(want.ecu) = Len(lens)                                  \* ECU totals add up to the number of messages
          /\ \A k \in 1..Len(r.merged) : SummaryIs(r.merged[k], want)       \* merging the parts, any order and grouping = the whole
          /\ Len(r.parts) = 3 /\ Len(r.merged) >= 1
-Matches(e) == IF e.op = "stats" THEN StatsOk(e) ELSE FALSE
+\* ---- beyond the listed properties: reader -> parse -> filter -> statistics (./check extras).
+\* For a stream of complete, well-formed messages: read_message with a filter yields, piece by piece, the filtered-out marker
+\* exactly for the messages whose headers fail the configuration, then end of stream; kept + dropped = number of messages =
+\* the ECU total of the statistics of the same stream.
+PipelineOk(e) ==
+  LET lens == R!Cut(e.stream, e.sh)  st == Starts(lens, 0)  r == e.res  cfg == e.flt[1]
+      wf == R!SumSeq(lens) = Len(e.stream) /\ \A i \in 1..Len(lens) : LET d == ParseVerdict(SubSeq(e.stream, st[i] + 1, st[i] + lens[i]), e.sh) IN d.v = "msg" /\ WellFormed(d.m) IN
+  wf => /\ r.v = "ok" /\ Len(r.pm) = Len(lens) + 1 /\ r.pm[Len(lens) + 1].v = "eos"
+        /\ \A i \in 1..Len(lens) :
+             LET d == ParseVerdict(SubSeq(e.stream, st[i] + 1, st[i] + lens[i]), e.sh) IN
+             IF F!Dropped(cfg, d.m.h, d.m.x) THEN r.pm[i].v = "filtered" /\ r.pm[i].n = d.m.h.plen
+                                            ELSE r.pm[i].v = "msg" /\ r.pm[i].h = d.m.h /\ r.pm[i].x = d.m.x
+        /\ r.stats_total = Len(lens)
+Matches(e) == CASE e.op = "stats" -> StatsOk(e) [] e.op = "pipeline" -> PipelineOk(e) [] OTHER -> FALSE
 Init == l = 1 /\ bad = <<>>
 Next == l <= Len(Rec) /\ l' = l + 1 /\ bad' = IF Matches(Rec[l]) THEN bad ELSE Append(bad, l)
 Spec == Init /\ [][Next]_<<l, bad>>
